@@ -1,13 +1,36 @@
 package main
 
+// C08 stream: random histories on both routers over the reference storage, mixing
+//   * token issuance through the real code flow (opaque and JWT access tokens, with refresh tokens) and through the refresh grant,
+//   * expiry, userinfo, introspection, revocation, end_session, token exchange, the refresh grant,
+// along these dimensions (each visible in the evidence's generator_distribution):
+//   * the presented string: genuine / bit-flipped (really decrypted: CFB malleability) / re-encrypted under another key / garbage /
+//     JWT of a foreign key / JWT signed with the provider's key but expired or naming another issuer,
+//   * refresh tokens as first-class tokens: presented at revocation with hint ∈ {absent, access_token, refresh_token, garbage} ×
+//     caller ∈ {owner, foreign, public}, afterwards used at the refresh grant and as token-exchange subject, and the access token of the
+//     same grant at userinfo / introspection (`after-revoke-*`),
+//   * the shape of the refresh-token strings the storage hands out: short ids (never decrypt), opaque base64url blobs (always decrypt
+//     under AES-CFB, to garbage), blobs that decrypt to `x:y` (`rt-shape-*`),
+//   * the issuer: static, or derived from the request (op.IssuerFromHost / IssuerFromForwardedOrHost) with 2-3 virtual issuers on ONE
+//     provider; tokens of issuer A are presented at issuer B and vice versa, in both orders (`cross-issuer-*`).
+
 import (
 	"bufio"
+	"context"
+	"crypto/sha256"
+	"encoding/base64"
+	"encoding/hex"
+	"encoding/json"
 	"fmt"
+	"io"
+	"log/slog"
+	"net/http"
 	"net/url"
 	"sort"
 	"strings"
 	"time"
 
+	jose "github.com/go-jose/go-jose/v4"
 	"github.com/zitadel/oidc/v3/pkg/crypto"
 	"github.com/zitadel/oidc/v3/pkg/oidc"
 	"github.com/zitadel/oidc/v3/pkg/op"
@@ -19,25 +42,174 @@ import (
 
 func init() { streams["C08"] = c08Stream }
 
-type c08Token struct {
-	label, id, client, subject string
-	access, refresh, idToken   string
-	jwt                        bool
+var c08Discard = slog.New(slog.NewTextHandler(io.Discard, nil))
+
+// ---------------------------------------------------------------- storage wrapper: the refresh-token strings handed out
+
+// c08Store is the reference storage with one freedom a real storage has: what its refresh-token STRINGS look like.
+// Everything else is forwarded unchanged (op.Storage + TokenExchangeStorage).
+type c08Store struct {
+	op.Storage
+	op.TokenExchangeStorage
+	in, out map[string]string // outer -> inner, inner -> outer
+	mint    func(inner string) string
 }
 
-// presentedKV classifies a presented access-token string for the model: what Decrypt makes of it
-// (really decrypted with the provider's key, so malleability is exercised) or whether it is one of
-// the provider's own JWT access tokens.
-func presentedKV(l *hx.Line, bed *opbed.Bed, tok string, genuineJWT *c08Token) {
-	if plain, err := crypto.DecryptAES(tok, string(bed.CryptoKey[:])); err == nil {
-		l.S("p.kind", "decrypts").S("p.plain", plain)
+func (s *c08Store) inner(tok string) string {
+	if v, ok := s.in[tok]; ok {
+		return v
+	}
+	return tok
+}
+
+func (s *c08Store) outer(tok string) string {
+	if v, ok := s.out[tok]; ok {
+		return v
+	}
+	o := s.mint(tok)
+	s.in[o], s.out[tok] = tok, o
+	return o
+}
+
+func (s *c08Store) CreateAccessAndRefreshTokens(ctx context.Context, request op.TokenRequest, current string) (string, string, time.Time, error) {
+	at, rt, exp, err := s.Storage.CreateAccessAndRefreshTokens(ctx, request, s.inner(current))
+	if err == nil && rt != "" {
+		rt = s.outer(rt)
+	}
+	return at, rt, exp, err
+}
+
+func (s *c08Store) TokenRequestByRefreshToken(ctx context.Context, tok string) (op.RefreshTokenRequest, error) {
+	return s.Storage.TokenRequestByRefreshToken(ctx, s.inner(tok))
+}
+
+func (s *c08Store) GetRefreshTokenInfo(ctx context.Context, clientID, tok string) (string, string, error) {
+	userID, tokenID, err := s.Storage.GetRefreshTokenInfo(ctx, clientID, s.inner(tok))
+	if err == nil {
+		tokenID = s.outer(tokenID)
+	}
+	return userID, tokenID, err
+}
+
+func (s *c08Store) RevokeToken(ctx context.Context, tokenOrID, userID, clientID string) *oidc.Error {
+	return s.Storage.RevokeToken(ctx, s.inner(tokenOrID), userID, clientID)
+}
+
+// ---------------------------------------------------------------- the bed: one provider, possibly several virtual issuers
+
+type c08Bed struct {
+	*opbed.Bed
+	st      *c08Store
+	issMode string   // static | host | forwarded
+	hosts   []string // dynamic: the virtual hosts; static: [""]
+}
+
+func c08NewBed(router, issMode string, hosts []string, mint func(string) string) *c08Bed {
+	key := hx.Keys()[0]
+	st := refstore.New(refstore.SigningKeySpec{Kid: "sig1", Alg: jose.SignatureAlgorithm(key.Algs[0]), Priv: key.Priv, Pub: key.Pub})
+	base := st.With(refstore.Caps{TE: true})
+	ws := &c08Store{Storage: base, TokenExchangeStorage: base.(op.TokenExchangeStorage), in: map[string]string{}, out: map[string]string{}, mint: mint}
+	cfg := opbed.Config{Router: router, S256: true, Post: true, PrivateKeyJWT: true, Refresh: true, SignKey: key, SignAlg: key.Algs[0]}
+	b := &opbed.Bed{Cfg: cfg, Store: st, Storage: ws, CryptoKey: sha256.Sum256([]byte("verif-crypto-key")), SignKey: key}
+	oc := &op.Config{CryptoKey: b.CryptoKey, DefaultLogoutRedirectURI: "https://op.example/logged-out", CodeMethodS256: true, AuthMethodPost: true,
+		AuthMethodPrivateKeyJWT: true, GrantTypeRefreshToken: true, SupportedClaims: op.DefaultSupportedClaims}
+	issuer := op.StaticIssuer(opbed.Issuer)
+	switch issMode {
+	case "host":
+		issuer = op.IssuerFromHost("")
+	case "forwarded":
+		issuer = op.IssuerFromForwardedOrHost("")
+	}
+	p, err := op.NewProvider(oc, ws, issuer, op.WithLogger(c08Discard))
+	if err != nil {
+		panic(err)
+	}
+	b.Provider = p
+	if router == "legacy" {
+		b.Handler = op.RegisterLegacyServer(op.NewLegacyServer(p, *op.DefaultEndpoints), op.AuthorizeCallbackHandler(p), op.WithFallbackLogger(c08Discard))
+	} else {
+		b.Handler = p
+	}
+	return &c08Bed{Bed: b, st: ws, issMode: issMode, hosts: hosts}
+}
+
+// issuerOf: the issuer a request sent to `host` is served under
+func (cb *c08Bed) issuerOf(host string) string {
+	if cb.issMode == "static" {
+		return opbed.Issuer
+	}
+	return "https://" + host
+}
+
+// at addresses a request to one of the virtual hosts
+func (cb *c08Bed) at(r *http.Request, host string) *http.Request {
+	switch cb.issMode {
+	case "host":
+		r.Host = host
+	case "forwarded":
+		r.Host = "proxy.internal"
+		r.Header.Set("Forwarded", "for=192.0.2.1;host="+host+";proto=https")
+	}
+	return r
+}
+
+type c08Token struct {
+	label, id, client, subject string // the access token
+	access, refresh, idToken   string // the strings handed out
+	rtLabel, grant, host       string
+	jwt                        bool
+	rtRevokedWithATHint        bool // the owner revoked the refresh token with token_type_hint=access_token
+	gone                       bool // replaced at the refresh grant
+}
+
+func c08Raw(tok string) string {
+	if len(tok) <= 64 {
+		return tok
+	}
+	h := sha256.Sum256([]byte(tok))
+	return "~" + hex.EncodeToString(h[:6])
+}
+
+// adopt records the provenance of a signature the PROVIDER made (verified with its public key), so that the symbolic
+// description of one of its JWT access tokens says who signed it
+func (s *symbols) adopt(tok string, k *hx.Key) {
+	jws, err := jose.ParseSigned(tok, allAlgs)
+	if err != nil || len(jws.Signatures) != 1 {
 		return
 	}
-	if genuineJWT != nil && tok == genuineJWT.access {
-		l.S("p.kind", "jwt").S("p.jti", genuineJWT.id).S("p.sub", genuineJWT.subject)
+	payload, err := jws.Verify(k.Pub)
+	if err != nil {
 		return
 	}
-	l.S("p.kind", "nothing")
+	sg := jws.Signatures[0]
+	s.sigs[string(sg.Signature)] = sigRecord{signer: k.No, alg: sg.Header.Algorithm, kid: sg.Header.KeyID, payload: s.pid(payload)}
+}
+
+// presentedKV describes a presented string for the model: what Decrypt makes of it (really decrypted with the provider's key, so
+// malleability is exercised), else how go-jose / ParseToken see it, and its jti.  Returns the class of the string.
+func (cb *c08Bed) presentedKV(l *hx.Line, sy *symbols, tok string, isRefresh bool) string {
+	l.S("raw", c08Raw(tok))
+	if plain, err := crypto.DecryptAES(tok, string(cb.CryptoKey[:])); err == nil {
+		l.S("p.kind", "decrypts").S("p.plain", plain).I("p.parts", int64(len(strings.Split(plain, ":"))))
+		return "decrypts"
+	}
+	sy.tokenKV(l, tok)
+	kind := "nothing"
+	if parts := strings.Split(tok, "."); len(parts) == 3 {
+		if _, err := jose.ParseSigned(tok, allAlgs); err == nil {
+			kind = "jwt"
+			if m, ok := opbed.DecodeJWT(tok); ok {
+				if j, ok := m["jti"].(string); ok {
+					l.S("p.jti", j)
+				}
+			}
+		}
+	}
+	if isRefresh {
+		kind = "refresh"
+	}
+	l.S("p.kind", kind)
+	return kind
 }
 
 func c08Stream(r *hx.Rand, tier string, n int, w *bufio.Writer) map[string]int {
@@ -50,9 +222,13 @@ func c08Stream(r *hx.Rand, tier string, n int, w *bufio.Writer) map[string]int {
 	stats := map[string]int{}
 	sy := newSymbols()
 	caseNo := 0
+	h0 := 0
 	emit := func(l *hx.Line) {
 		fmt.Fprintln(w, l.String())
 		caseNo++
+	}
+	line := func(opName string) *hx.Line {
+		return hx.NewLine("C08").I("case", int64(caseNo)).I("h0", int64(h0)).S("op", opName)
 	}
 	maxOps := 16
 	if tier == "thorough" {
@@ -60,11 +236,35 @@ func c08Stream(r *hx.Rand, tier string, n int, w *bufio.Writer) map[string]int {
 	}
 	for h := 0; h < n; h++ {
 		router := hx.Pick(r, "provider", "legacy")
-		cfg := opbed.Config{Router: router, S256: true, Post: true, PrivateKeyJWT: true, Refresh: true, Caps: refstore.Caps{CC: true, TE: true, Device: true}}
-		bed, err := opbed.New(cfg)
-		if err != nil {
-			panic(err)
+		issMode := hx.Pick(r, "static", "static", "static", "static", "host", "host", "host", "forwarded")
+		hosts := []string{""}
+		if issMode != "static" {
+			hosts = []string{"a.example", "b.example", "c.example"}[:2+r.Intn(2)]
 		}
+		rtShape := hx.Pick(r, "short", "short", "short", "short", "short", "blob", "blob", "blob", "collide")
+		var cb *c08Bed
+		mint := func(inner string) string { return inner }
+		switch rtShape {
+		case "blob": // an opaque random string, as most storages hand out: under AES-CFB it always "decrypts" (to garbage)
+			mint = func(string) string {
+				b := make([]byte, 32)
+				for i := range b {
+					b[i] = byte(r.Intn(256))
+				}
+				return base64.RawURLEncoding.EncodeToString(b)
+			}
+		case "collide": // a blob whose garbage happens to have exactly one ':' (here: constructed, so that the case is hit on purpose)
+			mint = func(inner string) string {
+				enc, _ := crypto.EncryptAES("zz"+inner+":yy", string(cb.CryptoKey[:]))
+				return enc
+			}
+		}
+		cb = c08NewBed(router, issMode, hosts, mint)
+		bed := cb.Bed
+		stats["issuer-mode-"+issMode]++
+		stats[fmt.Sprintf("issuers-%d", len(hosts))]++
+		stats["rt-shape-"+rtShape]++
+		stats["router-"+router]++
 		cls := flowClients()
 		webjwt := opbed.WebClient("webjwt", "secret-jwt", "https://rp.example/cb")
 		webjwt.TokenType = op.AccessTokenTypeJWT
@@ -78,20 +278,213 @@ func c08Stream(r *hx.Rand, tier string, n int, w *bufio.Writer) map[string]int {
 		for _, fc := range cls {
 			byID[fc.c.ID] = fc
 		}
-		l := hx.NewLine("C08").I("case", int64(caseNo)).S("op", "reset").S("router", router).S("issuer", opbed.Issuer)
+		h0 = caseNo
+		l := line("reset").S("router", router).S("issuer", opbed.Issuer).S("issmode", issMode).L("hosts", hosts).S("rtshape", rtShape)
 		clientsKV(l, cls)
+		ksLinePub(l, "published", []pubKey{{k: bed.SignKey, kid: "sig1", use: "sig"}})
 		emit(l)
 		var toks []*c08Token
+		nGrant := 0
 		issuers := []*flowClient{byID["web"], byID["web"], byID["webjwt"], byID["web2"], byID["pub"]}
+		if issMode != "static" {
+			issuers = []*flowClient{byID["web"], byID["webjwt"], byID["webjwt"], byID["web2"], byID["pub"]}
+		}
+		do := func(req *http.Request, host string) *opbed.Resp { return bed.Do(cb.at(req, host)) }
+		// register the tokens of a successful token response
+		register := func(tr *opbed.Resp, host string, jwt bool) *c08Token {
+			ids := bed.Store.TokenIDs()
+			rec := bed.Store.Token(ids[len(ids)-1])
+			nGrant++
+			t := &c08Token{label: fmt.Sprintf("t%d", len(toks)+1), id: rec.ID, client: rec.ClientID, subject: rec.Subject, host: host, grant: fmt.Sprintf("g%d", nGrant),
+				access: tr.Str("access_token"), refresh: tr.Str("refresh_token"), idToken: tr.Str("id_token"), jwt: jwt}
+			if t.refresh != "" {
+				t.rtLabel = "r" + t.label[1:]
+			}
+			if jwt {
+				sy.adopt(t.access, bed.SignKey)
+			}
+			toks = append(toks, t)
+			emit(line("issue").S("label", t.label).S("id", t.id).S("client", t.client).S("sub", t.subject).L("aud", rec.Audience).B("jwt", t.jwt).
+				S("iss", cb.issuerOf(host)).S("rt", t.refresh).S("rtlabel", t.rtLabel).S("grant", t.grant))
+			return t
+		}
+		live := func() []*c08Token {
+			var out []*c08Token
+			for _, t := range toks {
+				if !t.gone {
+					out = append(out, t)
+				}
+			}
+			if len(out) == 0 {
+				return toks
+			}
+			return out
+		}
+		// the host a token is presented at: mostly its own issuer, sometimes another one
+		hostFor := func(t *c08Token, opName, what string) (string, bool) {
+			if len(hosts) > 1 && r.Chance(35) {
+				for {
+					if h := hosts[r.Intn(len(hosts))]; h != t.host {
+						stats["cross-issuer-"+opName+"-"+what]++
+						return h, true
+					}
+				}
+			}
+			return t.host, false
+		}
+		// findings recorded in known-findings.jsonl are matched on these input-shape keys
+		shapeKV := func(l *hx.Line, t *c08Token) {
+			if t.refresh == "" {
+				return
+			}
+			if plain, err := crypto.DecryptAES(t.refresh, string(bed.CryptoKey[:])); err == nil && len(strings.Split(plain, ":")) == 2 {
+				l.S("rt.shape", "decrypts-to-two-parts")
+			}
+			if t.rtRevokedWithATHint {
+				l.S("rt.revhint", "access_token")
+			}
+		}
+
+		var opUserinfo, opIntrospect, opExchange, opRefresh func(t *c08Token, after string)
+		opUserinfo = func(t *c08Token, after string) {
+			presented, label, variant := c08Forge(r, sy, cb, t)
+			stats["presented-"+variant]++
+			host, cross := hostFor(t, "userinfo", c08What(t, false))
+			l := line("userinfo").S("tok", label).S("iss", cb.issuerOf(host)).B("cross", cross)
+			cb.presentedKV(l, sy, presented, false)
+			shapeKV(l, t)
+			t0 := time.Now()
+			resp := do(bed.Get("/userinfo", nil, presented), host)
+			l.I("now0", t0.UnixNano()).I("now1", time.Now().UnixNano()).I("o.status", int64(resp.Status))
+			if resp.Status == 200 && resp.JSON != nil {
+				if s, ok := resp.JSON["sub"].(string); ok {
+					l.S("o.sub", s)
+				}
+			}
+			if resp.Panicked {
+				l.S("obs", "panic")
+			}
+			stats["op-userinfo"]++
+			if after != "" {
+				stats["after-"+after+"-userinfo"]++
+			}
+			emit(l)
+		}
+		opIntrospect = func(t *c08Token, after string) {
+			presented, label, variant := c08Forge(r, sy, cb, t)
+			stats["presented-"+variant]++
+			caller := hx.Pick(r, byID[t.client], byID[t.client], byID["web2"], byID["pub"], byID["pk"])
+			host, cross := hostFor(t, "introspect", c08What(t, false))
+			l := line("introspect").S("tok", label).S("iss", cb.issuerOf(host)).B("cross", cross)
+			kind := cb.presentedKV(l, sy, presented, false)
+			if caller == nil || (caller.key != nil && (issMode != "static" || kind != "decrypts")) {
+				// a private_key_jwt caller needs the line's token keys for its assertion (and a static audience): use a secret client instead
+				caller = byID["web"]
+			}
+			shapeKV(l, t)
+			auth := flowAuth(r, sy, l, caller, cls)
+			waitClearOfSecondEdge()
+			t0 := time.Now()
+			resp := do(bed.Form("/oauth/introspect", url.Values{"token": {presented}}, auth), host)
+			l.I("now0", t0.UnixNano()).I("now1", time.Now().UnixNano()).I("o.status", int64(resp.Status))
+			active := false
+			var members []string
+			if resp.JSON != nil {
+				if a, ok := resp.JSON["active"].(bool); ok {
+					active = a
+				}
+				for k := range resp.JSON {
+					members = append(members, k)
+				}
+				sort.Strings(members)
+			}
+			l.B("o.active", active)
+			if resp.Status == 200 {
+				l.L("o.members", members)
+			}
+			if resp.Panicked {
+				l.S("obs", "panic")
+			}
+			stats["op-introspect"]++
+			if after != "" {
+				stats["after-"+after+"-introspect"]++
+			}
+			emit(l)
+		}
+		opExchange = func(t *c08Token, after string) {
+			asRefresh := t.refresh != "" && (after == "revoke-rt" || r.Chance(35))
+			presented, label, stype := t.access, t.label, "access"
+			if asRefresh {
+				presented, label, stype = t.refresh, t.rtLabel, "refresh"
+			} else {
+				var variant string
+				presented, label, variant = c08Forge(r, sy, cb, t)
+				stats["presented-"+variant]++
+			}
+			host, cross := hostFor(t, "exchange", c08What(t, asRefresh))
+			f := url.Values{"grant_type": {string(oidc.GrantTypeTokenExchange)}, "subject_token": {presented},
+				"subject_token_type": {string(oidc.AccessTokenType)}, "requested_token_type": {string(oidc.AccessTokenType)}}
+			if asRefresh {
+				f.Set("subject_token_type", string(oidc.RefreshTokenType))
+			}
+			l := line("exchange").S("tok", label).S("stype", stype).S("iss", cb.issuerOf(host)).B("cross", cross)
+			cb.presentedKV(l, sy, presented, asRefresh)
+			shapeKV(l, t)
+			t0 := time.Now()
+			resp := do(bed.Form("/oauth/token", f, ownAuth(sy, byID["web"])), host)
+			l.I("now0", t0.UnixNano()).I("now1", time.Now().UnixNano())
+			l.I("o.status", int64(resp.Status)).B("o.success", resp.Status == 200 && resp.Str("access_token") != "").S("o.err", resp.OAuthError())
+			if resp.Panicked {
+				l.S("obs", "panic")
+			}
+			stats["op-exchange-"+stype]++
+			if after != "" {
+				stats["after-"+after+"-exchange-"+stype]++
+			}
+			emit(l)
+		}
+		opRefresh = func(t *c08Token, after string) {
+			if t.refresh == "" {
+				opUserinfo(t, after)
+				return
+			}
+			owner := byID[t.client]
+			host, cross := hostFor(t, "refresh", "rt")
+			f := url.Values{"grant_type": {"refresh_token"}, "refresh_token": {t.refresh}}
+			l := line("refresh").S("tok", t.rtLabel).S("iss", cb.issuerOf(host)).B("cross", cross)
+			cb.presentedKV(l, sy, t.refresh, true)
+			shapeKV(l, t)
+			resp := do(bed.Form("/oauth/token", f, ownAuth(sy, owner)), host)
+			ok := resp.Status == 200 && resp.Str("access_token") != ""
+			rotated := ok && resp.Str("refresh_token") != "" && resp.Str("refresh_token") != t.refresh
+			l.I("o.status", int64(resp.Status)).B("o.success", ok).B("o.rotated", rotated).S("o.err", resp.OAuthError())
+			if resp.Panicked {
+				l.S("obs", "panic")
+			}
+			stats["op-refresh"]++
+			if after != "" {
+				stats["after-"+after+"-refresh"]++
+			}
+			emit(l)
+			if ok {
+				if rotated {
+					t.gone = true
+				}
+				register(resp, host, t.jwt)
+				stats["op-issue-by-refresh"]++
+			}
+		}
+
 		nops := 5 + r.Intn(maxOps)
 		for o := 0; o < nops; o++ {
-			kind := r.Intn(12)
+			kind := r.Intn(15)
 			if len(toks) == 0 {
 				kind = 0
 			}
 			switch {
-			case kind <= 1: // issue through a real code flow
+			case kind <= 1: // issue through a real code flow, at one of the issuers
 				fc := issuers[r.Intn(len(issuers))]
+				host := hosts[r.Intn(len(hosts))]
 				sub := hx.Pick(r, "user1", "user2")
 				redirect := fc.c.Redirects[0]
 				q := url.Values{"client_id": {fc.c.ID}, "redirect_uri": {redirect}, "response_type": {"code"}, "scope": {"openid profile offline_access"}, "state": {"s"}}
@@ -101,190 +494,228 @@ func c08Stream(r *hx.Rand, tier string, n int, w *bufio.Writer) map[string]int {
 					q.Set("code_challenge", oidc.NewSHACodeChallenge(verifier))
 					q.Set("code_challenge_method", "S256")
 				}
-				resp := bed.Do(bed.Get("/authorize", q, ""))
+				resp := do(bed.Get("/authorize", q, ""), host)
 				if resp.Loc == nil {
 					continue
 				}
 				id := resp.Loc.Query().Get("authRequestID")
 				bed.Store.CompleteAuthRequest(id, sub)
-				cb := bed.Do(bed.Get("/authorize/callback", url.Values{"id": {id}}, ""))
-				if cb.Loc == nil {
+				cbk := do(bed.Get("/authorize/callback", url.Values{"id": {id}}, ""), host)
+				if cbk.Loc == nil {
 					continue
 				}
-				f := url.Values{"grant_type": {"authorization_code"}, "code": {cb.Loc.Query().Get("code")}, "redirect_uri": {redirect}}
+				f := url.Values{"grant_type": {"authorization_code"}, "code": {cbk.Loc.Query().Get("code")}, "redirect_uri": {redirect}}
 				if verifier != "" {
 					f.Set("code_verifier", verifier)
 				}
-				tr := bed.Do(bed.Form("/oauth/token", f, ownAuth(sy, fc)))
+				tr := do(bed.Form("/oauth/token", f, ownAuth(sy, fc)), host)
 				if tr.Status != 200 {
 					continue
 				}
-				ids := bed.Store.TokenIDs()
-				rec := bed.Store.Token(ids[len(ids)-1])
-				t := &c08Token{label: fmt.Sprintf("t%d", len(toks)+1), id: rec.ID, client: rec.ClientID, subject: rec.Subject,
-					access: tr.Str("access_token"), refresh: tr.Str("refresh_token"), idToken: tr.Str("id_token"), jwt: fc.c.TokenType == op.AccessTokenTypeJWT}
-				toks = append(toks, t)
-				aud := append([]string{}, rec.Audience...)
-				sort.Strings(aud)
-				l := hx.NewLine("C08").I("case", int64(caseNo)).S("op", "issue").S("label", t.label).S("id", t.id).S("client", t.client).
-					S("sub", t.subject).L("aud", rec.Audience).B("jwt", t.jwt)
+				register(tr, host, fc.c.TokenType == op.AccessTokenTypeJWT)
 				stats["op-issue"]++
+			case kind == 2: // expire an access or a refresh token
+				t := hx.Pick(r, live()...)
+				if t.refresh != "" && r.Chance(40) {
+					bed.Store.ExpireToken(cb.st.inner(t.refresh))
+					emit(line("expire").S("label", t.rtLabel).S("id", t.refresh).S("kind", "rt"))
+					stats["op-expire-rt"]++
+				} else {
+					bed.Store.ExpireToken(t.id)
+					emit(line("expire").S("label", t.label).S("id", t.id).S("kind", "at"))
+					stats["op-expire-at"]++
+				}
+			case kind <= 4:
+				opUserinfo(hx.Pick(r, live()...), "")
+			case kind <= 6:
+				opIntrospect(hx.Pick(r, live()...), "")
+			case kind <= 9: // revocation of an access or a refresh token; afterwards the tokens of that grant are used again
+				t := hx.Pick(r, live()...)
+				asRefresh := t.refresh != "" && r.Chance(50)
+				presented, label, what := t.access, t.label, "at"
+				if asRefresh {
+					presented, label, what = t.refresh, t.rtLabel, "rt"
+					if r.Chance(8) {
+						presented, label = "garbage-refresh-token", ""
+					}
+				} else {
+					var variant string
+					presented, label, variant = c08Forge(r, sy, cb, t)
+					stats["presented-"+variant]++
+				}
+				who, caller := "owner", byID[t.client]
+				switch r.Intn(8) {
+				case 0, 1:
+					who, caller = "foreign", byID["web2"]
+					if t.client == "web2" {
+						caller = byID["web"]
+					}
+				case 2:
+					who, caller = "public", byID["pub"]
+					if t.client == "pub" {
+						who = "owner"
+					}
+				}
+				f := url.Values{"token": {presented}}
+				hint, hintName := hx.Pick(r, "", "access_token", "refresh_token", "bogus"), "garbage"
+				switch hint {
+				case "":
+					hintName = "absent"
+				case "access_token":
+					hintName = "at"
+				case "refresh_token":
+					hintName = "rt"
+				}
+				if hint != "" {
+					f.Set("token_type_hint", hint)
+				}
+				stats["revoke-"+what+"-hint-"+hintName]++
+				stats["revoke-"+what+"-by-"+who]++
+				stats["revoke-"+what+"-hint-"+hintName+"-"+who]++
+				host, cross := t.host, false // a token is revoked at the issuer that made it (what another issuer makes of it is F-C08c's subject)
+				l := line("revoke").S("tok", label).S("what", what).S("hint", hint).S("who", who).S("iss", cb.issuerOf(host)).B("cross", cross)
+				cb.presentedKV(l, sy, presented, asRefresh)
+				shapeKV(l, t)
+				auth := flowAuth(r, sy, l, caller, cls)
+				waitClearOfSecondEdge()
+				t0 := time.Now()
+				resp := do(bed.Form("/revoke", f, auth), host)
+				l.I("now0", t0.UnixNano()).I("now1", time.Now().UnixNano()).I("o.status", int64(resp.Status))
+				performed := false
+				for _, j := range resp.Journal {
+					if strings.HasPrefix(j, "RevokeToken(") {
+						performed = true
+					}
+				}
+				l.B("o.performed", performed).L("journal", resp.Journal)
+				if resp.Panicked {
+					l.S("obs", "panic")
+				}
+				stats["op-revoke"]++
 				emit(l)
-			case kind == 2: // expire
-				t := toks[r.Intn(len(toks))]
-				bed.Store.ExpireToken(t.id)
-				emit(hx.NewLine("C08").I("case", int64(caseNo)).S("op", "expire").S("label", t.label).S("id", t.id))
-				stats["op-expire"]++
+				if asRefresh && label != "" && who == "owner" && hint == "access_token" && resp.Status == 200 && !cross {
+					t.rtRevokedWithATHint = true
+				}
+				// afterwards: the refresh grant, token exchange with the refresh / access token as subject, userinfo, introspection
+				if r.Chance(75) {
+					after := "revoke-" + what
+					for k := 1 + r.Intn(3); k > 0; k-- {
+						switch r.Intn(4) {
+						case 0:
+							opRefresh(t, after)
+						case 1:
+							opExchange(t, after)
+						case 2:
+							opUserinfo(t, after)
+						default:
+							opIntrospect(t, after)
+						}
+						if t.gone {
+							break
+						}
+					}
+				}
+			case kind == 10: // logout with the id token as hint (at the issuer that made it)
+				t := hx.Pick(r, live()...)
+				if t.idToken == "" {
+					opUserinfo(t, "")
+					continue
+				}
+				hint := t.idToken
+				if r.Chance(45) {
+					// an EXPIRED but validly signed ID token of this provider is still a valid logout hint
+					now := time.Now().Unix()
+					claims := fmt.Sprintf(`{"iss":"%s","sub":"%s","aud":["%s"],"azp":"%s","exp":%d,"iat":%d,"auth_time":%d}`,
+						cb.issuerOf(t.host), t.subject, t.client, t.client, now-3600, now-7200, now-7200)
+					if exp, err := hx.Sign(bed.SignKey, bed.Cfg.SignAlg, "sig1", []byte(claims)); err == nil {
+						hint = exp
+						stats["endsession-expired-hint"]++
+					}
+				}
+				resp := do(bed.Get("/end_session", url.Values{"id_token_hint": {hint}}, ""), t.host)
+				terminated := false
+				for _, j := range resp.Journal {
+					if strings.HasPrefix(j, "TerminateSession("+t.subject+","+t.client) {
+						terminated = true
+					}
+				}
+				emit(line("endsession").S("sub", t.subject).S("client", t.client).S("iss", cb.issuerOf(t.host)).
+					I("o.status", int64(resp.Status)).B("o.terminated", terminated).L("journal", resp.Journal))
+				stats["op-endsession"]++
+				if r.Chance(60) {
+					switch r.Intn(3) {
+					case 0:
+						opRefresh(t, "logout")
+					case 1:
+						opUserinfo(t, "logout")
+					default:
+						opExchange(t, "logout")
+					}
+				}
+			case kind <= 12:
+				opExchange(hx.Pick(r, live()...), "")
 			default:
-				t := toks[r.Intn(len(toks))]
-				// the presented string: genuine, or one of several forgeries
-				presented, genuine := t.access, t
-				switch r.Intn(10) {
-				case 0: // bit flip in the middle of the string
-					b := []byte(presented)
-					if len(b) > 10 {
-						i := 5 + r.Intn(len(b)-10)
-						if b[i] == 'A' {
-							b[i] = 'B'
-						} else {
-							b[i] = 'A'
-						}
-					}
-					presented, genuine = string(b), nil
-				case 1:
-					presented, genuine = "garbage", nil
-				case 2: // re-encrypted under another key: "id:sub" of a live token, but not sealed by this provider
-					enc, _ := crypto.EncryptAES(t.id+":"+t.subject, "0123456789abcdef0123456789abcdef")
-					presented, genuine = enc, nil
-				case 3: // JWT access token of the right shape signed by a foreign key
-					claims := fmt.Sprintf(`{"iss":"%s","sub":"%s","aud":["%s"],"exp":%d,"iat":%d,"jti":"%s"}`, opbed.Issuer, t.subject, t.client, time.Now().Unix()+300, time.Now().Unix()-5, t.id)
-					forged, _ := hx.Sign(hx.Keys()[1], "RS256", "sig1", []byte(claims))
-					presented, genuine = forged, nil
-				}
-				label := ""
-				if genuine != nil {
-					label = genuine.label
-				}
-				var jwtTok *c08Token
-				if genuine != nil && genuine.jwt {
-					jwtTok = genuine
-				}
-				switch {
-				case kind <= 4: // userinfo
-					l := hx.NewLine("C08").I("case", int64(caseNo)).S("op", "userinfo").S("tok", label)
-					presentedKV(l, bed, presented, jwtTok)
-					resp := bed.Do(bed.Get("/userinfo", nil, presented))
-					l.I("o.status", int64(resp.Status))
-					if resp.Status == 200 && resp.JSON != nil {
-						if s, ok := resp.JSON["sub"].(string); ok {
-							l.S("o.sub", s)
-						}
-					}
-					if resp.Panicked {
-						l.S("obs", "panic")
-					}
-					stats["op-userinfo"]++
-					emit(l)
-				case kind <= 6: // introspection
-					caller := hx.Pick(r, byID[t.client], byID[t.client], byID["web2"], byID["pub"], byID["pk"])
-					if caller == nil {
-						caller = byID["web"]
-					}
-					l := hx.NewLine("C08").I("case", int64(caseNo)).S("op", "introspect").S("tok", label)
-					presentedKV(l, bed, presented, jwtTok)
-					auth := flowAuth(r, sy, l, caller, cls)
-					waitClearOfSecondEdge()
-					t0 := time.Now()
-					resp := bed.Do(bed.Form("/oauth/introspect", url.Values{"token": {presented}}, auth))
-					l.I("now0", t0.UnixNano()).I("now1", time.Now().UnixNano()).I("o.status", int64(resp.Status))
-					active := false
-					var members []string
-					if resp.JSON != nil {
-						if a, ok := resp.JSON["active"].(bool); ok {
-							active = a
-						}
-						for k := range resp.JSON {
-							members = append(members, k)
-						}
-						sort.Strings(members)
-					}
-					l.B("o.active", active)
-					if resp.Status == 200 {
-						l.L("o.members", members)
-					}
-					if resp.Panicked {
-						l.S("obs", "panic")
-					}
-					stats["op-introspect"]++
-					emit(l)
-				case kind <= 8: // revocation
-					caller := hx.Pick(r, byID[t.client], byID[t.client], byID["web2"], byID["pub"])
-					if caller == nil {
-						caller = byID["web"]
-					}
-					f := url.Values{"token": {presented}}
-					if hint := hx.Pick(r, "", "", "access_token", "refresh_token", "bogus"); hint != "" {
-						f.Set("token_type_hint", hint)
-					}
-					l := hx.NewLine("C08").I("case", int64(caseNo)).S("op", "revoke").S("tok", label).S("hint", f.Get("token_type_hint"))
-					presentedKV(l, bed, presented, jwtTok)
-					auth := flowAuth(r, sy, l, caller, cls)
-					waitClearOfSecondEdge()
-					t0 := time.Now()
-					resp := bed.Do(bed.Form("/revoke", f, auth))
-					l.I("now0", t0.UnixNano()).I("now1", time.Now().UnixNano()).I("o.status", int64(resp.Status))
-					performed := false
-					for _, j := range resp.Journal {
-						if strings.HasPrefix(j, "RevokeToken(") {
-							performed = true
-						}
-					}
-					l.B("o.performed", performed).L("journal", resp.Journal)
-					if resp.Panicked {
-						l.S("obs", "panic")
-					}
-					stats["op-revoke"]++
-					emit(l)
-				case kind == 9 && genuine != nil && genuine.idToken != "": // logout with the id token as hint
-					hint := genuine.idToken
-					if r.Chance(45) {
-						// an EXPIRED but validly signed ID token of this provider is still a valid logout hint
-						now := time.Now().Unix()
-						claims := fmt.Sprintf(`{"iss":"%s","sub":"%s","aud":["%s"],"azp":"%s","exp":%d,"iat":%d,"auth_time":%d}`,
-							opbed.Issuer, genuine.subject, genuine.client, genuine.client, now-3600, now-7200, now-7200)
-						if exp, err := hx.Sign(bed.SignKey, bed.Cfg.SignAlg, "sig1", []byte(claims)); err == nil {
-							hint = exp
-							stats["endsession-expired-hint"]++
-						}
-					}
-					q := url.Values{"id_token_hint": {hint}}
-					resp := bed.Do(bed.Get("/end_session", q, ""))
-					terminated := false
-					for _, j := range resp.Journal {
-						if strings.HasPrefix(j, "TerminateSession("+genuine.subject+","+genuine.client) {
-							terminated = true
-						}
-					}
-					l := hx.NewLine("C08").I("case", int64(caseNo)).S("op", "endsession").S("sub", genuine.subject).S("client", genuine.client).
-						I("o.status", int64(resp.Status)).B("o.terminated", terminated).L("journal", resp.Journal)
-					stats["op-endsession"]++
-					emit(l)
-				default: // token exchange with the access token as subject token
-					caller := byID["web"]
-					f := url.Values{"grant_type": {string(oidc.GrantTypeTokenExchange)}, "subject_token": {presented},
-						"subject_token_type": {string(oidc.AccessTokenType)}, "requested_token_type": {string(oidc.AccessTokenType)}}
-					l := hx.NewLine("C08").I("case", int64(caseNo)).S("op", "exchange").S("tok", label)
-					presentedKV(l, bed, presented, jwtTok)
-					resp := bed.Do(bed.Form("/oauth/token", f, ownAuth(sy, caller)))
-					l.I("o.status", int64(resp.Status)).B("o.success", resp.Status == 200 && resp.Str("access_token") != "").S("o.err", resp.OAuthError())
-					if resp.Panicked {
-						l.S("obs", "panic")
-					}
-					stats["op-exchange"]++
-					emit(l)
-				}
+				opRefresh(hx.Pick(r, live()...), "")
 			}
 		}
 	}
 	return stats
+}
+
+func c08What(t *c08Token, asRefresh bool) string {
+	switch {
+	case asRefresh:
+		return "rt"
+	case t.jwt:
+		return "jwt"
+	}
+	return "opaque"
+}
+
+// c08Forge picks the presented access-token string: genuine (label = the token's label) or one of several forgeries (label "")
+func c08Forge(r *hx.Rand, sy *symbols, cb *c08Bed, t *c08Token) (presented, label, variant string) {
+	now := time.Now().Unix()
+	jwtClaims := func(iss string, exp int64) []byte {
+		b, _ := json.Marshal(map[string]any{"iss": iss, "sub": t.subject, "aud": []string{t.client}, "exp": exp, "iat": now - 5, "nbf": now - 5, "jti": t.id, "client_id": t.client})
+		return b
+	}
+	switch r.Intn(14) {
+	case 0: // bit flip in the middle of the string
+		b := []byte(t.access)
+		if len(b) > 10 {
+			i := 5 + r.Intn(len(b)-10)
+			if t.jwt {
+				// a JWT is tampered in its payload or signature (a changed protected header is C02's subject), and never in the last
+				// character of a segment: its unused bits would give a different string for the same bytes
+				first := strings.IndexByte(t.access, '.')
+				for i <= first || b[i] == '.' || i+1 == len(b) || b[i+1] == '.' {
+					i = first + 1 + r.Intn(len(b)-first-2)
+				}
+			}
+			if b[i] == 'A' {
+				b[i] = 'B'
+			} else {
+				b[i] = 'A'
+			}
+		}
+		return string(b), "", "bitflip"
+	case 1:
+		return "garbage", "", "garbage"
+	case 2: // re-encrypted under another key: "id:sub" of a live token, but not sealed by this provider
+		enc, _ := crypto.EncryptAES(t.id+":"+t.subject, "0123456789abcdef0123456789abcdef")
+		return enc, "", "reencrypted"
+	case 3: // JWT access token of the right shape signed by a foreign key
+		forged, _ := sy.sign(hx.Keys()[1], "RS256", "sig1", jwtClaims(cb.issuerOf(t.host), now+300))
+		return forged, "", "foreignkey-jwt"
+	case 4: // signed with the provider's own key and naming a live token, but EXPIRED
+		tok, _ := sy.sign(cb.SignKey, cb.Cfg.SignAlg, "sig1", jwtClaims(cb.issuerOf(t.host), now-3600))
+		return tok, "", "expired-jwt"
+	case 5: // signed with the provider's own key, unexpired, but naming an issuer this provider does not serve
+		tok, _ := sy.sign(cb.SignKey, cb.Cfg.SignAlg, "sig1", jwtClaims("https://evil.example", now+300))
+		return tok, "", "otherissuer-jwt"
+	}
+	if t.jwt {
+		return t.access, t.label, "genuine-jwt"
+	}
+	return t.access, t.label, "genuine-opaque"
 }
